@@ -89,7 +89,7 @@ func c13Gen(t *rapid.T) c13Case {
 	nLinks := rapid.IntRange(0, 4).Draw(t, "nlinks")
 	for i := 0; i < nLinks; i++ {
 		d := rapid.SampledFrom(existingDirs()).Draw(t, "linkdir")
-		name := filepath.Join(d, rapid.SampledFrom([]string{"l1", "l2", "lnk", "l.skip", "zl"}).Draw(t, "linkname"))
+		name := filepath.Join(d, rapid.SampledFrom([]string{"l1", "l2", "lnk", "l.skip", "zl", "f1", "x", "f1"}).Draw(t, "linkname"))
 		var target string
 		switch rapid.IntRange(0, 10).Draw(t, "linkkind") {
 		case 0, 1, 2: // file symlink, relative or absolute
@@ -177,7 +177,7 @@ func c13Gen(t *rapid.T) c13Case {
 		c.Script = rapid.SliceOfN(rapid.SampledFrom(ops), 0, 3).Draw(t, "script")
 		c.Exit = rapid.SampledFrom([]int{0, 0, 0, 1, 3, 255}).Draw(t, "exit")
 		if c.Mode == "match" {
-			c.Perturb = rapid.SliceOfN(rapid.SampledFrom([]string{"drop", "add", "digest"}), 0, 3).Draw(t, "perturb")
+			c.Perturb = rapid.SliceOfN(rapid.SampledFrom([]string{"drop", "add", "digest", "otheralg"}), 0, 3).Draw(t, "perturb")
 		}
 	}
 	return c
@@ -415,6 +415,22 @@ func c13Run(c c13Case, r *hx.Rec) error {
 				n := fmt.Sprintf("ghost-%d", i)
 				products[n] = intoto.HashObj{"sha256": "00"}
 				wantOnly = append(wantOnly, n)
+			case "otheralg":
+				// the link holds digests under other algorithms only: nothing says the file is the same
+				if len(names) > i {
+					if _, still := products[names[i]]; still {
+						h := intoto.HashObj{}
+						for _, a := range []string{"sha256", "sha384", "sha512"} {
+							if _, requested := products[names[i]][a]; !requested {
+								h[a] = "00ff"
+							}
+						}
+						if len(h) > 0 && len(products[names[i]]) > 0 {
+							products[names[i]] = h
+							wantDiffer = append(wantDiffer, names[i])
+						}
+					}
+				}
 			case "digest":
 				if len(names) > i {
 					if _, still := products[names[i]]; still {
